@@ -1,7 +1,7 @@
 SPECIFICATION Spec
-CONSTANT UseMutex = FALSE
+CONSTANT UseMutex = TRUE
 CONSTANT SharedScratch = FALSE
-CONSTANT AtomicAdd = TRUE
+CONSTANT AtomicAdd = FALSE
 CONSTANT TryLock = FALSE
 INVARIANT ParEqualsSeq
 INVARIANT NoLostStrategyUpdate
